@@ -2,9 +2,9 @@
    status.Tracker, copyGraph.fn, the outer fan-out of ExtendedCopyGraph).  `Reachable succ K ext roots s`:
    s is reachable from `init K ext roots` by any sequence of labels (any interleaving, any fault
    choice, cancellation of the caller's context at any point). *)
-From Coq Require Import List Arith Bool.
+From Coq Require Import List Arith Bool Lia.
 From Oras Require Import Model.CopyImpl Proofs.CopyImplBase Proofs.CopyImplInv Proofs.CopyImplInv2 Proofs.CopyImplLive
-  Proofs.CopyImplDeadlock Proofs.CopyImplFault Proofs.CopyImplTerm.
+  Proofs.CopyImplDeadlock Proofs.CopyImplFault Proofs.CopyImplTerm Proofs.CopyImplSucc Proofs.CopyImplSucc2.
 Import ListNotations.
 
 Theorem C04_permits_conserved : forall succ K ext roots s, Reachable succ K ext roots s ->
@@ -82,3 +82,51 @@ Theorem C02_fault_surfaces_protocol : forall succ K ext roots,
   existsb is_fault ls = true -> is_final s = true -> result s = Some true.
 Proof. exact fault_surfaces. Qed.
 Print Assumptions C02_fault_surfaces_protocol.
+
+(* Success.  If the top-level syncutil.Go has returned nil then: no fault or cancellation happened
+   (failed = false: contrapositive of the theorem above), every goroutine has finished and holds no
+   permit, every root is Done in the tracker (its done channel is closed), every node that was copied
+   (DoneCopied: pushed by this run, as opposed to DoneSkipped: found present by Exists) has all its
+   successors Done, and no node is left InProgress.  Hence every node reachable from a root through
+   copied nodes is Done. *)
+Theorem C02_success_protocol : forall succ K ext roots,
+  (forall n m, In m (succ n) -> m < n) ->
+  forall s, Reachable succ K ext roots s -> result s = Some false ->
+  failed s = false /\
+  (forall t, is_fin (t_pc (tasks s t)) = true /\ t_holds (tasks s t) = false) /\
+  (forall r, In r roots -> is_done (tracker s r) = true) /\
+  (forall n, tracker s n = DoneCopied -> forall m, In m (succ n) -> is_done (tracker s m) = true) /\
+  (forall n, tracker s n <> InProgress).
+Proof. exact success_tracker. Qed.
+Print Assumptions C02_success_protocol.
+
+(* ---- the hypotheses are satisfiable: a concrete DAG (4 -> 3,2 ; 3 -> 1,2 ; 2 -> 0,1), complete runs *)
+Definition ex_succ (n : nat) : list nat :=
+  match n with 4 => [3; 2] | 3 => [1; 2] | 2 => [0; 1] | _ => [] end.
+Example ex_succ_dec : forall n m, In m (ex_succ n) -> m < n.
+Proof. intros n m. do 5 (destruct n as [|n]; [cbn; intuition lia|]). cbn. tauto. Qed.
+
+(* K = 1, CopyGraph from root 4, no fault: the labels chosen by the scheduler form a run of the LTS
+   that ends, returns nil, leaves every node Done and all permits free *)
+Example ex_run_ok :
+  let ls := snd (sched ex_succ pick_progress 400 (init 1 false [4]) []) in
+  existsb is_fault ls = false /\ length ls = 59 /\
+  match run ex_succ (init 1 false [4]) ls with
+  | Some s => result s = Some false /\ forallb (fun n => is_done (tracker s n)) [0; 1; 2; 3; 4] = true /\ free s = 1
+  | None => False
+  end.
+Proof. vm_compute. repeat split; reflexivity. Qed.
+
+(* K = 2, ExtendedCopyGraph with roots 4 and 3, the first push fails: the call returns an error *)
+Example ex_run_fault :
+  let ls := snd (sched ex_succ pick_push_fault 400 (init 2 true [4; 3]) []) in
+  existsb is_fault ls = true /\
+  match run ex_succ (init 2 true [4; 3]) ls with
+  | Some s => is_final s = true /\ result s = Some true /\ free s = 2
+  | None => False
+  end.
+Proof. vm_compute. repeat split; reflexivity. Qed.
+
+(* a reachable non-final state (the hypothesis of C02_no_deadlock) *)
+Example ex_nonfinal : Reachable ex_succ 1 false [4] (init 1 false [4]) /\ is_final (init 1 false [4]) = false.
+Proof. split. apply R_init. reflexivity. Qed.
